@@ -89,6 +89,7 @@ class DictV(object):
         self.oid = fresh_oid()
         self.cls = cls
         self.abstract = None      # AbstractMap or None
+        self.sym_items = None     # [[key, value]] with symbolic keys (pairwise distinct), in insertion order
 
     def __repr__(self):
         return "<DictV#%d %s>" % (self.oid, list(self.entries))
